@@ -430,7 +430,7 @@ fn build_sources(opts: &Opts, rng: &mut Rng) -> Vec<(String, Layout, Vec<Vec<Key
     let ms = h_layouts::enumerated_mappings();
     // all 1 428 single-mapping layouts, and every `stride`-th of the 2.04 M ordered pairs (the offset
     // moves with the seed, so different seeds cover different pairs; stride 1 = the whole family)
-    let stride = opts.num("enum-stride", 1499) as usize;
+    let stride = opts.num("enum-stride", 2503) as usize;
     let offset = (opts.num("seed", 1) as usize) % stride.max(1);
     let mut idx = 0usize;
     for m in &ms {
@@ -447,7 +447,7 @@ fn build_sources(opts: &Opts, rng: &mut Rng) -> Vec<(String, Layout, Vec<Vec<Key
     }
   }
   if want("random") {
-    let n = opts.num("random", if thorough { 1800 } else { 600 });
+    let n = opts.num("random", if thorough { 1200 } else { 600 });
     for i in 0..n {
       if i % 3 == 2 {
         res.push((format!("random:absrich:{}", i), h_layouts::absorbing_rich_layout(rng), vec![]));
